@@ -3833,6 +3833,21 @@ private:
     value_type val{};
 };
 
+// `nullValue` of floating-point types is NaN by default and NaN never compares
+// equal to anything, including itself. When null value is NaN, any NaN is null.
+template<typename T>
+constexpr bool is_null_value(T value, T null_value, std::false_type) noexcept
+{
+    return value == null_value;
+}
+
+template<typename T>
+constexpr bool is_null_value(T value, T null_value, std::true_type) noexcept
+{
+    return (value == null_value)
+           || ((null_value != null_value) && (value != value));
+}
+
 // old compilers might generate wrong alignment for classes which contain
 // `double` member. To overcome this, explicit alignment is provided.
 //! @brief Base class for optional types
@@ -3898,7 +3913,8 @@ public:
     //! @brief Checks if has value
     constexpr bool has_value() const noexcept
     {
-        return (val != Derived::null_value());
+        return !is_null_value(
+            val, Derived::null_value(), std::is_floating_point<T>{});
     }
 
     //! @brief Checks if has value
@@ -3918,7 +3934,9 @@ public:
     constexpr friend bool
         operator==(const optional_base& lhs, const optional_base& rhs) noexcept
     {
-        return *lhs == *rhs;
+        return (lhs.has_value() && rhs.has_value())
+                   ? (*lhs == *rhs)
+                   : (lhs.has_value() == rhs.has_value());
     }
 
 #ifdef SBEPP_DOXYGEN
@@ -3943,7 +3961,7 @@ public:
     constexpr friend bool
         operator!=(const optional_base& lhs, const optional_base& rhs) noexcept
     {
-        return *lhs != *rhs;
+        return !(lhs == rhs);
     }
 
     //! @brief Tests if `lhs` is less than `rhs`
